@@ -19,7 +19,7 @@ PROPS_FILE = "theories/Props/C18.v"
 COQ_TARGETS = ["theories/Props/C18.vo", "theories/Model/ImagesRun.vo"]
 DRIVER = None
 LEVEL = "proof"
-RULE = ("documents with image XObjects and inline images: 8-bit gray, 8-bit RGB and 1-bit samples, widths and heights "
+RULE = ("inline images exported with ImageWriter under every spelling of their dictionary (abbreviated/full keys and colour space names); documents with image XObjects and inline images: 8-bit gray, 8-bit RGB and 1-bit samples, widths and heights "
         "1..24 (every row length modulo 4), stored unfiltered, through Flate, LZW, ASCII85, ASCIIHex, RunLength and chains "
         "of them, or as DCT data (arbitrary bytes behind a JPEG header); several images per page, equal resource names on "
         "different pages, pre-existing files in the output directory; exported through extract_text_to_fp(output_dir=...) "
@@ -362,10 +362,80 @@ def format_cases(ctx):
         ctx.disagree("format", {"case": cases[j][0]}, shown, cases[j][1])
 
 
+def inline_export_cases(ctx, n):
+    """inline images exported with ImageWriter: every spelling of the dictionary (abbreviated and full keys and colour
+    space names), gray / RGB / 1-bit, several per page; each must come out as a file a BMP reader decodes to the samples"""
+    for i in range(n):
+        r = ctx.sub("inlexp", i)
+        parts, images = [], []
+        for k in range(r.randint(1, 3)):
+            kind = r.choice(["gray", "gray", "rgb", "bw"])
+            w, h = r.randint(1, 12), r.randint(1, 6)
+            while True:
+                if kind == "gray":
+                    data = bytes(r.randrange(256) for _ in range(w * h))
+                elif kind == "rgb":
+                    data = bytes(r.randrange(256) for _ in range(3 * w * h))
+                else:
+                    data = bytes(r.randrange(256) for _ in range((w + 7) // 8 * h))
+                if b"EI" not in data and data[-1:] not in (b"\r", b"\n"):
+                    break
+            if kind == "gray":
+                px = [[(data[y * w + x],) * 3 for x in range(w)] for y in range(h)]
+            elif kind == "rgb":
+                px = [[tuple(data[3 * (y * w + x):3 * (y * w + x) + 3]) for x in range(w)] for y in range(h)]
+            else:
+                bpl = (w + 7) // 8
+                px = [[((255,) * 3 if (data[y * bpl + x // 8] >> (7 - x % 8)) & 1 else (0,) * 3) for x in range(w)] for y in range(h)]
+            cs = {"gray": r.choice([b"/G", b"/DeviceGray"]), "bw": r.choice([b"/G", b"/DeviceGray"]), "rgb": r.choice([b"/RGB", b"/DeviceRGB"])}[kind]
+            d = [(r.choice([b"/W", b"/Width"]), b"%d" % w), (r.choice([b"/H", b"/Height"]), b"%d" % h),
+                 (r.choice([b"/CS", b"/ColorSpace"]), cs), (r.choice([b"/BPC", b"/BitsPerComponent"]), b"1" if kind == "bw" else b"8")]
+            r.shuffle(d)
+            parts.append(b"q %d 0 0 %d %d %d cm BI " % (4 * w, 4 * h, r.randint(0, 400), r.randint(0, 600)) + b" ".join(a + b" " + b for a, b in d) + b" ID " + data + b"\nEI Q")
+            images.append((kind, w, h, px, cs.decode()))
+        content = b"\n".join(parts) + b"\nBT /F1 10 Tf 50 50 Td (after) Tj ET"
+        objs = {1: {"Type": Name("Catalog"), "Pages": Ref(2)}, 2: {"Type": Name("Pages"), "Kids": [Ref(3)], "Count": 1},
+                3: {"Type": Name("Page"), "Parent": Ref(2), "MediaBox": [0, 0, 612, 792], "Contents": Ref(4),
+                    "Resources": {"Font": {"F1": {"Type": Name("Font"), "Subtype": Name("Type1"), "BaseFont": Name("Helvetica")}}}},
+                4: Stream({}, content)}
+        pdf = write_pdf(objs, 1)
+        outdir = fresh_dir("inl%d" % (i % 16))
+        fam = "inline-export"
+        inp = {"pdf": pdf.hex(), "images": [(k, w, h, cs) for k, w, h, _, cs in images]}
+        try:
+            text = export(pdf, outdir)
+        except BaseException as e:  # noqa
+            ctx.violation(fam, inp, "exported files", type(e).__name__ + ": " + str(e)[:200], "export of inline images raised")
+            continue
+        ctx.case(fam, pdf, nontrivial=True, sample={"images": inp["images"], "files": sorted(os.listdir(outdir))[:4]})
+        if "after" not in text:
+            ctx.violation(fam, inp, "text 'after'", text[:50], "operators after the inline images were not executed")
+        files = sorted(os.listdir(outdir))
+        if len(files) != len(images):
+            ctx.violation(fam, inp, "%d files" % len(images), files, "number of exported files differs from the number of inline images (names not distinct?)")
+            continue
+        decoded = []
+        for f in files:
+            try:
+                decoded.append(read_bmp(open(os.path.join(outdir, f), "rb").read()))
+            except Exception as e:  # noqa
+                decoded.append((f, str(e)))
+        for kind, w, h, px, cs in images:
+            want = (w, h, px)
+            if want in decoded:
+                decoded.remove(want)
+            else:
+                ctx.violation(fam, dict(inp, image=[kind, w, h, cs]), "a file a BMP reader decodes to the stored samples", files,
+                              "exported inline image does not reproduce the samples")
+                break
+    shutil.rmtree(WORK, ignore_errors=True)
+
+
 def correspondence(ctx):
     format_cases(ctx)
     image_cases(ctx, ctx.n(120, 2500))
     inline_cases(ctx, ctx.n(300, 6000))
+    inline_export_cases(ctx, ctx.n(80, 1500))
 
 
 def oracle(ctx):
